@@ -42,12 +42,16 @@ def fold_catalogue(repo, ev):
         v = ev.global_value(m, name)
         if isinstance(v, Obj) and v.cls is cls:
             out[name] = (v, binds[-1][0], binds[-1][1])
+        elif isinstance(v, (Tup, Str, Rat)) or isinstance(v, NoneV):
+            # the name of a set bound to something that FOLDS and is not a set (a stray trailing comma makes a 1-tuple)
+            NOT_A_SET.append((name, binds[-1][1], 'a tuple' if isinstance(v, Tup) else ('a string' if isinstance(v, Str) else ('None' if isinstance(v, NoneV) else 'a number'))))
         elif not isinstance(v, Obj):
             UNFOLDED.append((name, binds[-1][1]))
     return out
 
 
 UNFOLDED = []
+NOT_A_SET = []
 
 
 def fr(v):
@@ -218,10 +222,45 @@ def suspects(rep):
                 rep.info('R-CHAIN', 'R-CHAIN::suspect', 'geodepy/constants.py', 'all %d inconsistent triples involve the pair %s' % (tot, ' <-> '.join(sorted(k))))
 
 
+def immutable_rule(repo, rep):
+    """a set of the catalogue is a VALUE: -a, a + date build new sets.  A method other than __init__ that assigns to a field of `self` (an
+    in-place `__iadd__` that shifts the epoch) changes the shipped constant whenever a caller writes `trans += epoch` on it: the forward set
+    then no longer is the exact negation of its reverse partner and carries another reference epoch than its name's publication."""
+    for cname in ('Transformation', 'TransformationSD'):
+        cls = repo.cls('geodepy.constants', cname)
+        for mname, f in cls.methods.items():
+            if mname == '__init__':
+                continue
+            slf = f.params[0].name if f.params else 'self'
+            key = 'R-PURE::geodepy/constants.py::%s.%s::receiver-unchanged' % (cname, mname)
+            hit = None
+            for n in ast.walk(f.node):
+                tg = []
+                if isinstance(n, ast.Assign):
+                    tg = n.targets
+                elif isinstance(n, (ast.AugAssign, ast.AnnAssign)):
+                    tg = [n.target]
+                for t in tg:
+                    for x in ([t] if not isinstance(t, ast.Tuple) else t.elts):
+                        if isinstance(x, ast.Attribute) and isinstance(x.value, ast.Name) and x.value.id == slf:
+                            hit = hit or n
+                if isinstance(n, ast.Call) and getattr(n.func, 'id', '') == 'setattr' and n.args and isinstance(n.args[0], ast.Name) and n.args[0].id == slf:
+                    hit = hit or n
+                if isinstance(n, ast.Call) and isinstance(n.func, ast.Attribute) and n.func.attr == 'update' and stmt_text(n.func.value) in ('%s.__dict__' % slf, 'vars(%s)' % slf):
+                    hit = hit or n
+            if hit is not None:
+                rep.violated('R-PURE', key, where(f, hit), '%s.%s assigns to its receiver (`%s`): used on a shipped constant (conform14 does `trans += epoch` / the user does) it rewrites the '
+                             'catalogue entry itself - the pair stops being exact negations with one reference epoch' % (cname, mname, stmt_text(hit)[:60]),
+                             expected='a new %s' % cname, actual=stmt_text(hit)[:80])
+            else:
+                rep.holds('R-PURE', key, where(f, f.node), '%s.%s leaves its receiver as it is' % (cname, mname), work=False)
+
+
 def method_rules(repo, rep, ev):
     neg_rules(repo, rep, ev)
     add_rules(repo, rep, ev)
     iers_rules(repo, rep, ev)
+    immutable_rule(repo, rep)
 
 
 def type_dependent(value, slot):
@@ -441,8 +480,13 @@ def run(repo, rep):
     from . import common
     common.state_rule(repo, rep, [('geodepy.constants', 'Transformation.__add__'), ('geodepy.constants', 'Transformation.__neg__'), ('geodepy.constants', 'iers2trans')])
     del UNFOLDED[:]
+    del NOT_A_SET[:]
     cat = fold_catalogue(repo, ev)
     rep.extra['catalogue_entries'] = len(cat)
+    for name_, st_, what_ in NOT_A_SET:
+        rep.violated('R-LABEL', 'R-LABEL::geodepy/constants.py::%s' % name_, 'geodepy/constants.py:%d' % st_.lineno,
+                     'the constant %s is %s, not a Transformation (`%s`): the set its name states does not exist - conform14 refuses it, an enumeration of the catalogue by class skips it '
+                     'and its partner has no reverse' % (name_, what_, stmt_text(st_)[:70]), expected='a Transformation', actual=what_)
     for name_, st_ in UNFOLDED:
         rep.undecided('R-LABEL', 'R-LABEL::geodepy/constants.py::%s' % name_, 'geodepy/constants.py:%d' % st_.lineno,
                       'the constant %s does not fold to a Transformation object: its labels, negation partner and chains are not decided' % name_)
@@ -456,9 +500,11 @@ def run(repo, rep):
     rep.extra['reverse_pairs'] = npairs
     method_rules(repo, rep, ev)
     epoch_rules(repo, rep, cat)
-    rep.floor('R-LABEL', 120, 'catalogue entries')
-    rep.floor('R-CHAIN', 384, 'ordered ITRF triples')
-    rep.floor('R-NEG', 55, 'forward/reverse pairs')
+    if not NOT_A_SET:
+        # (a name that is not a set is reported above: the counts below are then short by what hangs on it)
+        rep.floor('R-LABEL', 120, 'catalogue entries')
+        rep.floor('R-CHAIN', 384, 'ordered ITRF triples')
+        rep.floor('R-NEG', 55, 'forward/reverse pairs')
     rep.floor('R-LITERAL', 60, 'literal catalogue entries')
     # odd entry: suffixed sets are outside the chain rule
     for name in sorted(cat):
